@@ -123,4 +123,45 @@ example : Emul.lineSlice [1, 2, 3, 4] ⟨some 2, some 4, none⟩ = some [2, 3] :
 example : accessorSlice 5 ⟨none, none, some (-2)⟩ = some [4, 2, 0] := by decide
 example : accessorSlice 5 ⟨some (-100), some 100, none⟩ = some [0, 1, 2, 3, 4] := by decide
 
+/-- `acc[:]` hands every ordinal `0 … len−1`, each once, in order -/
+theorem full_slice_is_every_ordinal (len : Nat) :
+    accessorSlice len ⟨none, none, none⟩ = some ((List.range len).map fun (k : Nat) => (k : Int)) := by
+  unfold accessorSlice sliceIndices
+  simp only [Option.getD_none, show (1 : Int) ≠ 0 by decide, if_false, show ¬ ((1 : Int) < 0) by decide, Option.map_some]
+  unfold pyRange rangeLen
+  simp only [show (1 : Int) > 0 by decide, if_true]
+  congr 1
+  by_cases h : (0 : Int) < (len : Int)
+  · rw [if_pos h]
+    have : ((len : Int) - 0 - 1) / 1 + 1 = (len : Int) := by omega
+    rw [this, Int.toNat_natCast]
+    apply List.map_congr_left; intro k _; omega
+  · rw [if_neg h]
+    have : len = 0 := by omega
+    subst this; rfl
+
+/-- `acc[::-1]` hands every ordinal, last first -/
+theorem reversed_slice_is_every_ordinal (len : Nat) :
+    accessorSlice len ⟨none, none, some (-1)⟩ = some ((List.range len).map fun (k : Nat) => (len : Int) - 1 - (k : Int)) := by
+  unfold accessorSlice sliceIndices
+  simp only [Option.getD_some, show (-1 : Int) ≠ 0 by decide, if_false, show ((-1 : Int) < 0) by decide, if_true, Option.map_some]
+  unfold pyRange rangeLen
+  simp only [show ¬ ((-1 : Int) > 0) by decide, if_false, show ((-1 : Int) < 0) by decide, if_true]
+  congr 1
+  by_cases h : (-1 : Int) < (len : Int) - 1
+  · rw [if_pos h]
+    have : ((len : Int) - 1 - -1 - 1) / (- -1) + 1 = (len : Int) := by
+      have e : (- (-1 : Int)) = 1 := by decide
+      rw [e]; omega
+    rw [this, Int.toNat_natCast]
+    apply List.map_congr_left; intro k _; omega
+  · rw [if_neg h]
+    have : len = 0 := by omega
+    subst this; rfl
+
+/-- an integer subscript is in range exactly for `−len ≤ k < len` -/
+theorem int_ordinal_in_range_iff (len : Nat) (k : Int) :
+    (0 ≤ accessorInt len k ∧ accessorInt len k < len) ↔ (-(len : Int) ≤ k ∧ k < len) := by
+  unfold accessorInt; split <;> omega
+
 end Sgz.Props.C13
